@@ -307,3 +307,137 @@ Proof.
   destruct (set_all_num_layers_spec _ _ _ E) as [m [-> _]].
   eapply setup_names_invS; [|exact H]. apply invS_set_cnl, fold_add_layer_invS, invS_clear_layers, IS.
 Qed.
+
+(** ** reduce on a geometry that stays a valid mesh: the whole invariant *)
+Definition layers_fine (g : geo) : Prop :=
+  forall l, In l (tl (llist g)) -> Qle_bool (lb g l) (lc g l) && Qle_bool (lc g l) (lt g l) = true.
+Lemma fold_fix_layer_id ls : forall g, (forall l, In l ls -> Qle_bool (lb g l) (lc g l) && Qle_bool (lc g l) (lt g l) = true) -> fold_left fix_layer ls g = g.
+Proof.
+  induction ls as [|l r IH]; intros g H; cbn [fold_left]; [reflexivity|].
+  unfold fix_layer at 2. rewrite (H l (or_introl eq_refl)). apply IH. intros x Hx. apply H. right. exact Hx.
+Qed.
+Lemma delete_columns_core names : forall g g', InvS g -> S3b g -> S5n g -> delete_columns g names = Ok g' -> InvS g' /\ S3b g' /\ S5n g'.
+Proof.
+  induction names as [|n r IH]; intros g g' I D1 D2 H; cbn [delete_columns] in H; [inversion H; subst; auto|].
+  destruct (delete_column g n) as [g1|] eqn:E; cbn [bind] in H; [|discriminate].
+  destruct (delete_column_core g n g1 I E) as [I1 [B [C _]]].
+  assert (D1' : S3b g1) by (destruct (fx_nbr (fx g)) eqn:Fx; [eapply delete_column_S3b_repaired; eauto|apply B; auto]).
+  exact (IH g1 g' I1 D1' (C D2) H).
+Qed.
+Lemma fix_centres_closed names : forall g g', fix_centres g names = Ok g' -> exists m, g' = set_ccen g m.
+Proof.
+  induction names as [|n r IH]; intros g g' H; cbn [fix_centres] in H; [inversion H; subst g'; exists (ccen g); reflexivity|].
+  destruct (cget g n); [|discriminate]. destruct (IH _ _ H) as [m ->]. exists m. reflexivity.
+Qed.
+Theorem reduce_inv_clean g names hbad g' : Inv g -> reduce g names [] hbad = Ok g' ->
+  (forall keep g1, lookup_cols g names = Ok keep -> delete_columns g (map (cn g) (filter (fun c => negb (mem c keep)) (clist g))) = Ok g1 ->
+     extra_keys g1 = [] /\ layers_fine g1) ->
+  Inv g'.
+Proof.
+  intros [IS [D1 D2 D3]] H Clean. unfold reduce in H.
+  destruct (lookup_cols g names) as [keep|] eqn:E0; cbn [bind] in H; [|discriminate].
+  match type of H with (do g1 <- delete_columns g ?L; _) = _ => destruct (delete_columns g L) as [g1|] eqn:E1 end; cbn [bind] in H; [|discriminate].
+  destruct (Clean keep g1 eq_refl E1) as [Ex Lf].
+  destruct (delete_columns_core _ _ _ IS D1 D2 E1) as [I1 [D1' D2']].
+  destruct (check_fix g1 [] hbad) as [g2|] eqn:E2; cbn [bind] in H; [|discriminate].
+  unfold check_fix, add_missing in E2. destruct (is_ordering_of [] (missing_pairs g1)); [|discriminate].
+  cbn [add_connections bind] in E2. rewrite Ex in E2. cbn [delete_connections bind] in E2.
+  destruct (delete_orphans g1) as [g3|] eqn:E3; cbn [bind] in E2; [|discriminate].
+  pose proof (delete_orphans_invS g1 g3 I1 E3) as I3.
+  assert (D3' : S3b g3 /\ S5n g3).
+  { unfold delete_orphans in E3. clear - D1' D2' E3. revert E3. generalize (map (nn g1) (orphans g1)). intro names. revert g1 D1' D2'.
+    induction names as [|n r IH]; intros g1 D1' D2' H; cbn [delete_nodes] in H; [inversion H; subst; auto|].
+    destruct (delete_node g1 n) as [g4|] eqn:E; cbn [bind] in H; [|discriminate].
+    apply (IH g4); [| |exact H]; unfold delete_node in E; destruct (nget g1 n); try discriminate; revert E; gs; destruct (mem _ _); try discriminate; intro E; inversion E; subst g4; assumption. }
+  destruct D3' as [D13 D23].
+  destruct (fix_centres g3 hbad) as [g4|] eqn:E4; cbn [bind] in E2; [|discriminate].
+  destruct (fix_centres_closed _ _ _ E4) as [m Eg4].
+  assert (Lf4 : layers_fine g4).
+  { subst g4. unfold delete_orphans in E3. clear - Lf E3.
+    assert (X : llist g3 = llist g1 /\ lbot g3 = lbot g1 /\ lcen g3 = lcen g1 /\ ltop g3 = ltop g1).
+    { revert E3. generalize (map (nn g1) (orphans g1)). intro names. revert g1 Lf. induction names as [|n r IH]; intros g1 Lf H; cbn [delete_nodes] in H; [inversion H; subst; auto|].
+      destruct (delete_node g1 n) as [g4|] eqn:E; cbn [bind] in H; [|discriminate].
+      assert (Y : llist g4 = llist g1 /\ lbot g4 = lbot g1 /\ lcen g4 = lcen g1 /\ ltop g4 = ltop g1).
+      { unfold delete_node in E. destruct (nget g1 n); [|discriminate]. revert E. gs. destruct (mem _ _); [|discriminate]. intro E; inversion E; subst g4. auto. }
+      destruct Y as [Y1 [Y2 [Y3 Y4]]]. destruct (IH g4) with (2 := H) as [Z1 [Z2 [Z3 Z4]]].
+      - intros l Hl. unfold lb, lc, lt. rewrite Y2, Y3, Y4. apply Lf. rewrite <- Y1. exact Hl.
+      - rewrite Z1, Z2, Z3, Z4. auto. }
+    destruct X as [X1 [X2 [X3 X4]]]. intros l Hl. unfold lb, lc, lt. gs. rewrite X2, X3, X4. apply Lf. rewrite <- X1. exact Hl. }
+  rewrite (fold_fix_layer_id _ g4 Lf4) in E2. inversion E2; subst g2; clear E2. subst g4.
+  eapply setup_names_inv; [| | |exact H].
+  - apply invS_set_ccen. exact I3.
+  - exact D13.
+  - exact D23.
+Qed.
+
+(** ** translate: the whole invariant (every elevation moves by the same amount) *)
+Lemma qle_shift a b d : Qle_bool (Qred (a + d)) (Qred (b + d)) = Qle_bool a b.
+Proof. apply Bool.eq_iff_eq_true. rewrite !Qle_bool_iff, !Qred_correct. apply Qplus_le_l. Qed.
+Lemma qltb_shift a b d : qltb (Qred (a + d)) (Qred (b + d)) = qltb a b.
+Proof. unfold qltb. rewrite qle_shift. reflexivity. Qed.
+Definition shift_o (dz : Q) (o : option Q) : option Q := match o with Some s => Some (Qred (s + dz)) | None => None end.
+Lemma translate_cols_closed (sh : pt -> pt) dz l : NoDup l -> forall G,
+  exists CC CS, fold_left (fun acc c => set_csurf (set_ccen acc (fset (ccen acc) c (sh (cc acc c))))
+                                                  (fset (csurf acc) c (match cs acc c with Some s => Some (Qred (s + dz)) | None => None end))) l G
+                = set_csurf (set_ccen G CC) CS /\
+               forall c, fget None CS c = if mem c l then shift_o dz (cs G c) else cs G c.
+Proof.
+  induction l as [|a r IH]; intros ND G; cbn [fold_left].
+  - exists (ccen G), (csurf G). split; [reflexivity|]. intro c. reflexivity.
+  - inversion ND as [|? ? Ha NDr]; subst.
+    destruct (IH NDr (set_csurf (set_ccen G (fset (ccen G) a (sh (cc G a)))) (fset (csurf G) a (match cs G a with Some s => Some (Qred (s + dz)) | None => None end)))) as [CC [CS [E F]]].
+    exists CC, CS. split; [rewrite E; reflexivity|]. intro c. rewrite F, mem_cons. unfold cs. gs.
+    destruct (Pos.eqb_spec c a) as [->|N]; cbn [orb].
+    + rewrite (notIn_mem_false _ _ Ha), fget_fset_eq. reflexivity.
+    + rewrite fget_fset_neq by exact N. reflexivity.
+Qed.
+Lemma translate_lays_closed dz l : NoDup l -> forall G,
+  exists LT LB LC, fold_left (fun acc l => set_lcen (set_lbot (set_ltop acc (fset (ltop acc) l (Qred (lt acc l + dz))))
+                                                            (fset (lbot acc) l (Qred (lb acc l + dz))))
+                                                  (fset (lcen acc) l (Qred (lc acc l + dz)))) l G
+                  = set_lcen (set_lbot (set_ltop G LT) LB) LC /\
+               (forall x, fget q0 LB x = if mem x l then Qred (lb G x + dz) else lb G x) /\
+               (forall x, fget q0 LT x = if mem x l then Qred (lt G x + dz) else lt G x).
+Proof.
+  induction l as [|a r IH]; intros ND G; cbn [fold_left].
+  - exists (ltop G), (lbot G), (lcen G). split; [reflexivity|]. split; intro x; reflexivity.
+  - inversion ND as [|? ? Ha NDr]; subst.
+    match goal with |- context [fold_left ?f r ?G1] => destruct (IH NDr G1) as [LT [LB [LC [E [F1 F2]]]]] end.
+    exists LT, LB, LC. split; [rewrite E; reflexivity|]. split; intro x; [rewrite F1|rewrite F2]; rewrite mem_cons; unfold lb, lt; gs;
+      (destruct (Pos.eqb_spec x a) as [->|N]; cbn [orb]; [rewrite (notIn_mem_false _ _ Ha), fget_fset_eq; reflexivity|rewrite fget_fset_neq by exact N; reflexivity]).
+Qed.
+Lemma fold_npos_closed (f : geo -> id -> pt) l : forall G, exists NP, fold_left (fun acc n => set_npos acc (fset (npos acc) n (f acc n))) l G = set_npos G NP.
+Proof.
+  induction l as [|a r IH]; intro G; cbn [fold_left]; [exists (npos G); reflexivity|].
+  destruct (IH (set_npos G (fset (npos G) a (f G a)))) as [NP E]. exists NP. rewrite E. reflexivity.
+Qed.
+Theorem translate_inv g dx dy dz : Inv g -> Inv (translate g dx dy dz).
+Proof.
+  intros [IS [D1 D2 D3]]. constructor; [apply translate_invS; exact IS|].
+  unfold translate. cbv zeta.
+  destruct (fold_npos_closed (fun acc n => pred2 (fst (np acc n) + dx, snd (np acc n) + dy)%Q) (nlist g) g) as [NP E1]. rewrite E1.
+  pose proof (dl_nodup _ _ _ (s1_c g (i_s1 g IS))) as NDc. pose proof (dl_nodup _ _ _ (s1_l g (i_s1 g IS))) as NDl.
+  destruct (translate_cols_closed (fun p => pred2 (fst p + dx, snd p + dy)%Q) dz (clist g) NDc (set_npos g NP)) as [CC [CS [E2 F2]]].
+  change (clist (set_npos g NP)) with (clist g). rewrite E2.
+  destruct (translate_lays_closed dz (llist g) NDl (set_csurf (set_ccen (set_npos g NP) CC) CS)) as [LT [LB [LC [E3 [F3 F4]]]]].
+  change (llist (set_csurf (set_ccen (set_npos g NP) CC) CS)) with (llist g). rewrite E3.
+  set (g' := set_lcen (set_lbot (set_ltop (set_csurf (set_ccen (set_npos g NP) CC) CS) LT) LB) LC).
+  assert (Ecs : forall c, In c (clist g) -> cs g' c = shift_o dz (cs g c)).
+  { intros c Hc. unfold g', cs. gs. rewrite F2, (In_mem_true _ _ Hc). reflexivity. }
+  assert (Elb : forall l, In l (llist g) -> lb g' l = Qred (lb g l + dz)).
+  { intros l Hl. unfold g', lb. gs. rewrite F3, (In_mem_true _ _ Hl). reflexivity. }
+  assert (Elt : forall l, In l (llist g) -> lt g' l = Qred (lt g l + dz)).
+  { intros l Hl. unfold g', lt. gs. rewrite F4, (In_mem_true _ _ Hl). reflexivity. }
+  constructor.
+  - exact D1.
+  - intros c Hc. change (clist g') with (clist g) in Hc. change (cl g' c) with (cl g c). rewrite <- (D2 c Hc), (Ecs c Hc).
+    unfold count_layers. change (llist g') with (llist g). destruct (tl (llist g)) as [|l r] eqn:Et; [reflexivity|].
+    destruct (cs g c) as [s|]; [|reflexivity]. cbn [shift_o]. f_equal. f_equal. f_equal. apply filter_ext_in.
+    intros x Hx. rewrite Elb by (apply tl_incl; rewrite Et; exact Hx). apply qltb_shift.
+  - apply (n_S6 g g'); [|exact D3]. constructor; try reflexivity.
+    + intros k _. split; reflexivity.
+    + intros lay c Hl Hc. unfold above_bottom. rewrite (Ecs c Hc), (Elb lay Hl). destruct (cs g c) as [s|]; [|reflexivity].
+      cbn [shift_o]. f_equal. apply qltb_shift.
+    + intros lay c Hl Hc. unfold surf_le_top. rewrite (Ecs c Hc), (Elt lay Hl). destruct (cs g c) as [s|]; [|reflexivity].
+      cbn [shift_o]. f_equal. apply qle_shift.
+Qed.
